@@ -200,6 +200,15 @@ def oracle(case, out, relax=False):
             a, b = ref_norm(uh(t[1])), ref_norm(uh(t[2]))
             r = b if a == "" else ref_norm(a + "/" + b)
             return [uh(x) for x in f] == [r, r], "a+b=%r" % r
+        if k == "FO":
+            a, b = ref_norm(uh(t[1])), ref_norm(uh(t[2]))
+            # operator-: as implemented (std::string::find_first_of: first character of a that occurs in b's character set).
+            # NOTE the documented intent "removes the base from a filename" ((a+b)-a == b) does NOT hold on the unchanged
+            # tree - reported to the coordinator as a possible finding; here only the implemented meaning is pinned.
+            pos = next((i for i, ch in enumerate(a) if ch in b), None)
+            minus = a if pos is None else ref_norm(a[pos + 1:])
+            exp = ["1" if a == b else "0", "0" if a == b else "1", hx(minus), "1", "1"]
+            return f == exp, "== %s, != %s, a-b=%r, str/c_str/operator string/operator<< agree, FileName() is the empty name" % (a == b, a != b, minus)
         if k == "AL":
             prs = [(uh(a.split(":")[0]), int(a.split(":")[1])) for a in t[1:]]
             exp = ref_args(prs)
@@ -286,6 +295,8 @@ def gen_cases(ctx):
     sf4 = list(strings("a./", 4))
     add("filename_plus", ["FP %s %s" % (hx(a), hx(b)) for a in sf4 for b in sf4])
     add("filename_plus", ["FP %s %s" % (hx(a), hx(b)) for a in ("", "a\\", "\\a", "a/b\\") for b in bsl[:400]])
+    sf3 = list(strings("a./", 3)) + ["dir/file", "dir", "b", "ab", "x/y.z"]
+    add("filename_ops", ["FO %s %s" % (hx(a), hx(b)) for a in sf3 for b in sf3])
     # --- PseudoURL: exhaustive short strings over {a,:,/,=}, assembled URLs with short components
     for s in strings("a:/=", ctx.pick(6, 7)):
         add("pseudourl_raw", ["PU %s %s %s" % (hx(s), hx("a"), hx("aa"))])
@@ -371,6 +382,8 @@ def is_nontrivial(case, out):
         return len(set(out.split())) == 2
     if k == "PU":
         return out.split()[2] != "[]"
+    if k == "FO":
+        return out.split()[0] == "1" or out.split()[2] != hx(ref_norm(uh(t[1])))
     if k in ("FN", "FE", "FP"):
         s = uh(t[1])
         return "/" in s.strip("/") or "." in s
@@ -379,6 +392,130 @@ def is_nontrivial(case, out):
     if k in ("AR", "RA"):
         return int(t[2]) > 0
     return bool(re.search(r"[EPTGMkmunpf]$", out))
+
+
+# ------------------------------------------------------------------------------ inventory closure
+# Every declaration of namespace rkcommon / rkcommon::utility made by the anchored headers (props/C18/factgen.py inventory():
+# clang JSON AST of common.h, os/FileName.h, utility/PseudoURL.h, utility/StringManip.h, utility/ArgumentList.h plus a TU that makes
+# clang declare the implicit special members) -> theorems / source-derived obligations ("by") and the case kinds that execute it
+# ("ops"), or an out-of-scope reason tied to the property text.  Fails closed on: a declaration missing here, an entry whose
+# declaration vanished / changed signature, a covered entry with zero executed cases.
+def _c(by, ops):
+    return {"by": by, "ops": ops}
+
+
+FN_ALL = ["FN", "FE", "FP", "FO"]
+ENV = "environment-dependent (reads $HOME / resolves against the file system): not a decomposition law of the property"
+COVER = {
+    # ---- StringManip.h
+    "utility::longestBeginningMatch : std::string (const std::string &, const std::string &)": _c(["lbm_is_lcp", "src_prefix_functions"], ["LB"]),
+    "utility::beginsWith : bool (const std::string &, const std::string &)": _c(["beginsWith_prefix", "src_prefix_functions"], ["LB"]),
+    "utility::split : std::vector<std::string> (const std::string &, char)": _c(["split_char_concat", "split_char_join"], ["SC"]),
+    "utility::split : std::vector<std::string> (const std::string &, const std::string &, const bool)": _c(["split_set_tokens", "split_set_concat"], ["SS"]),
+    "utility::lowerCase : std::string (const std::string &)": _c(["lower_pointwise"], ["LU"]),
+    "utility::upperCase : std::string (const std::string &)": _c(["upper_pointwise"], ["LU"]),
+    # ---- PseudoURL.h/.cpp
+    "utility::tokenize : void (const std::string &, const char, std::vector<std::string> &)": _c(["tokenize_tokens", "tokenize_concat", "tokenize_is_split_set", "src_tokenize_keeps_nonempty"], ["TK", "PU"]),
+    "utility::PseudoURL::PseudoURL : void (const std::string &)": _c(["pseudourl_parse_assemble"], ["PU"]),
+    "utility::PseudoURL::getType : std::string () const": _c(["pseudourl_parse_assemble"], ["PU"]),
+    "utility::PseudoURL::getFileName : std::string () const": _c(["pseudourl_parse_assemble"], ["PU"]),
+    "utility::PseudoURL::getValue : std::string (const std::string &) const": _c(["getValue_last_duplicate", "getValue_throws_iff_absent"], ["PU"]),
+    "utility::PseudoURL::hasParam : bool (const std::string &)": _c(["hasParam_iff_present"], ["PU"]),
+    "utility::PseudoURL::type : field std::string": _c(["pseudourl_parse_assemble"], ["PU"]),
+    "utility::PseudoURL::fileName : field std::string": _c(["pseudourl_parse_assemble"], ["PU"]),
+    "utility::PseudoURL::params : field std::vector<std::pair<std::string, std::string>>": _c(["pseudourl_parse_assemble (read through #define private public)"], ["PU"]),
+    "utility::PseudoURL::PseudoURL : void (const PseudoURL &) noexcept(false) (implicit)": _c(["(memberwise copy of three value members; the harness reads getType/getFileName/params through a const reference to the parsed object)"], ["PU"]),
+    "utility::PseudoURL::PseudoURL : void (PseudoURL &&) (implicit)": {"out": "memberwise move of std::string / std::vector members: standard-library behaviour, not a law of the property"},
+    "utility::PseudoURL::operator= : PseudoURL &(const PseudoURL &) noexcept(false) (implicit)": {"out": "memberwise assignment of std::string / std::vector members: standard-library behaviour, not a law of the property"},
+    "utility::PseudoURL::operator= : PseudoURL &(PseudoURL &&) (implicit)": {"out": "memberwise move assignment: standard-library behaviour, not a law of the property"},
+    "utility::PseudoURL::~PseudoURL : void () noexcept (implicit)": _c(["(every PU case)"], ["PU"]),
+    # ---- FileName.h/.cpp
+    "FileName::FileName : void ()": _c(["filename_plus_component (plus_empty: left identity)"], ["FO"]),
+    "FileName::FileName : void (const char *)": _c(["filename_normalised"], ["FN"]),
+    "FileName::FileName : void (const std::string &)": _c(["filename_normalised"], FN_ALL),
+    "FileName::filename : field std::string": _c(["filename_normalised"], FN_ALL),
+    "FileName::str : const std::string &() const": _c(["filename_decompose"], FN_ALL),
+    "FileName::c_str : const char *() const": _c(["filename_eq_spec (same string as str())"], ["FO"]),
+    "FileName::operator basic_string : std::string () const": _c(["filename_eq_spec (same string as str())"], ["FO"]),
+    "FileName::friend::operator<< : std::ostream &(std::ostream &, const FileName &)": _c(["filename_eq_spec (prints str())"], ["FO"]),
+    "FileName::friend::operator== : bool (const FileName &, const FileName &)": _c(["filename_eq_spec"], ["FO", "FN"]),
+    "FileName::friend::operator!= : bool (const FileName &, const FileName &)": _c(["filename_eq_spec"], ["FO", "FN"]),
+    "FileName::path : std::string () const": _c(["filename_decompose"], ["FN"]),
+    "FileName::base : std::string () const": _c(["filename_decompose"], ["FN"]),
+    "FileName::name : std::string () const": _c(["filename_decompose", "filename_ext_last_component", "src_filename_last_component"], ["FN"]),
+    "FileName::ext : std::string () const": _c(["filename_decompose", "filename_ext_last_component", "src_filename_last_component"], ["FN"]),
+    "FileName::dropExt : FileName () const": _c(["filename_decompose", "filename_dropExt_addExt", "dropExt_addExt_hidden_refuted", "src_filename_last_component"], ["FN", "FE"]),
+    "FileName::setExt : FileName (const std::string &) const": _c(["filename_decompose", "filename_setExt_own_ext", "src_filename_last_component"], ["FE"]),
+    "FileName::addExt : FileName (const std::string &) const": _c(["filename_dropExt_addExt", "filename_no_ext"], ["FE", "FN"]),
+    "FileName::operator+ : FileName (const FileName &) const": _c(["filename_plus_component", "filename_plus_recompose"], ["FP", "FO"]),
+    "FileName::operator+ : FileName (const std::string &) const": _c(["filename_plus_component"], ["FP", "FO"]),
+    "FileName::operator- : FileName (const FileName &) const": _c(["filename_minus_spec", "filename_minus_not_inverse_of_plus (possible finding, reported: (a+b)-a != b)"], ["FO"]),
+    "FileName::homeFolder : FileName ()": {"out": ENV},
+    "FileName::canonical : FileName ()": {"out": ENV},
+    "FileName::FileName : void (const FileName &) noexcept(false) (implicit)": _c(["(every member returning FileName by value: dropExt/setExt/addExt/operator+/-)"], ["FE", "FP", "FO"]),
+    "FileName::FileName : void (FileName &&) (implicit)": _c(["(returning FileName by value)"], ["FE", "FP", "FO"]),
+    "FileName::operator= : FileName &(const FileName &) noexcept(false) (implicit)": {"out": "memberwise assignment of one std::string: standard-library behaviour, not a law of the property"},
+    "FileName::operator= : FileName &(FileName &&) (implicit)": {"out": "memberwise move assignment of one std::string: standard-library behaviour, not a law of the property"},
+    "FileName::~FileName : void () noexcept (implicit)": _c(["(every FileName case)"], FN_ALL),
+    # ---- ArgumentList.h
+    "utility::ArgumentList::ArgumentList : void (int, const char **)": _c(["arglist_remove_spec (al_ctor drops av[0])"], ["AL", "AR"]),
+    "utility::ArgumentList::operator[] : std::string (const int) const": _c(["arglist_remaining"], ["AL", "AR"]),
+    "utility::ArgumentList::size : int () const": _c(["arglist_remaining"], ["AL", "AR"]),
+    "utility::ArgumentList::empty : bool () const": _c(["arglist_remove_spec"], ["AR"]),
+    "utility::ArgumentList::remove : void (int, int)": _c(["arglist_remove_spec", "src_parse_and_remove"], ["AR", "AL"]),
+    "utility::ArgumentList::arg : field std::vector<std::string>": _c(["arglist_remaining"], ["AL", "AR"]),
+    "utility::ArgumentList::ArgumentList : void (const ArgumentList &) noexcept(false) (implicit)": {"out": "memberwise copy of a std::vector<std::string>: standard-library behaviour, not a law of the property"},
+    "utility::ArgumentList::ArgumentList : void (ArgumentList &&) (implicit)": {"out": "memberwise move: standard-library behaviour, not a law of the property"},
+    "utility::ArgumentList::operator= : ArgumentList &(const ArgumentList &) noexcept(false) (implicit)": {"out": "memberwise assignment: standard-library behaviour, not a law of the property"},
+    "utility::ArgumentList::operator= : ArgumentList &(ArgumentList &&) (implicit)": {"out": "memberwise move assignment: standard-library behaviour, not a law of the property"},
+    "utility::ArgumentList::~ArgumentList : void () noexcept (implicit)": _c(["(every AL/AR case)"], ["AL", "AR"]),
+    "utility::ArgumentsParser::parseAndRemove : void (ArgumentList &)": _c(["arglist_remaining", "src_parse_and_remove"], ["AL"]),
+    "utility::ArgumentsParser::tryConsume : int (ArgumentList &, int)": _c(["arglist_remaining (the Section variable: ANY tryConsume within bounds)"], ["AL"]),
+    "utility::ArgumentsParser::~ArgumentsParser : void () (defaulted)": _c(["(every AL case)"], ["AL"]),
+    "utility::ArgumentsParser::operator= : ArgumentsParser &(const ArgumentsParser &) (implicit)": {"out": "stateless interface class: assignment has nothing to copy"},
+    # ---- common.h / common.cpp
+    "prettyDouble : std::string (double)": _c(["pretty_suffix_large", "pretty_suffix_small", "pretty_plain_between", "src_pretty_double_table"], ["PD"]),
+    "prettyNumber : std::string (size_t)": _c(["pretty_number_suffix", "pretty_number_plain", "src_pretty_number_table"], ["PN"]),
+    "removeArgs : void (int &, const char **&, int, int)": _c(["removeArgs_spec"], ["RA"]),
+    "loadLibrary : void (const void *, const std::string &, const std::vector<int> &)": {"out": "dynamic library loading (os/library): not a string / path / argument helper of the property"},
+    "unloadLibrary : void (const std::string &)": {"out": "dynamic library loading (os/library): not a string / path / argument helper of the property"},
+    "getSymbol : void *(const std::string &)": {"out": "dynamic library loading (os/library): not a string / path / argument helper of the property"},
+    "make_unique<> : std::unique_ptr<T> (Args &&...)": {"out": "generic memory helper (C++14 backfill): not in the property"},
+    "getDataSafe<> : T *(std::vector<T, A> &)": {"out": "generic container helper: not in the property"},
+}
+
+
+def check_inventory(ctx, cases):
+    try:
+        inv = factgen.inventory(ctx.repo, os.path.join(ctx.build, "ast"))
+    except Exception as ex:
+        inv = []
+        ctx.broken.append("inventory extraction failed: %r" % (ex,))
+    if not inv:
+        ctx.broken.append("inventory of the anchored headers is empty (AST not available)")
+    execs = {}
+    for c in cases:
+        execs[c[:2]] = execs.get(c[:2], 0) + 1
+    report = {}
+    for key in inv:
+        ent = COVER.get(key)
+        if ent is None:
+            ctx.broken.append("inventory: the anchored headers declare `%s`, which is not in props/C18/check.py COVER (new overload / member?)" % key)
+            report[key] = {"status": "NOT IN TABLE"}
+        elif "out" in ent:
+            report[key] = {"status": "out of scope", "reason": ent["out"]}
+        else:
+            n = sum(execs.get(o, 0) for o in ent["ops"])
+            report[key] = {"status": "covered", "by": ent["by"], "ops": ent["ops"], "executions": n}
+            if n == 0:
+                ctx.broken.append("inventory: no case of this run executed `%s` (case kinds %s)" % (key, ent["ops"]))
+    for key in COVER:
+        if inv and key not in inv:
+            ctx.broken.append("inventory: COVER entry `%s` matches no declaration any more (removed or signature changed)" % key)
+            report[key] = {"status": "VANISHED"}
+    ctx.cov["inventory"] = report
+    ctx.cov["inventory_summary"] = {"declarations": len(inv), "covered": sum(1 for v in report.values() if v["status"] == "covered"),
+                                    "out_of_scope": sum(1 for v in report.values() if v["status"] == "out of scope")}
 
 
 def regen_facts(ctx):
@@ -448,6 +585,7 @@ def run(ctx):
         elif k in ("PN", "PD"):
             s = o[-1] if o[-1:] in SI else "plain"
             sfx[k + ":" + s] = sfx.get(k + ":" + s, 0) + 1
+    check_inventory(ctx, cases)
     ctx.cov["case_mix"] = mix
     ctx.cov["token_length_histogram"] = toklen
     ctx.cov["pretty_suffix_histogram"] = sfx
@@ -499,7 +637,7 @@ def run(ctx):
         i = min(idxs, key=lambda j: (len(cases[j]), j))
         line = cases[i]
         t = line.split()
-        if k in ("SC", "SS", "TK", "PU", "FN", "FE", "FP", "LB", "LU"):
+        if k in ("SC", "SS", "TK", "PU", "FN", "FE", "FP", "FO", "LB", "LU"):
             def fails(chars, t=t):
                 l2 = " ".join([t[0], hx("".join(chars))] + t[2:])
                 return not oracle(l2, run1(l2))[0]
